@@ -63,6 +63,54 @@ def h_len(env):
             env.check("witness:reference-reads-delimited", False, repr(e))
 
 
+def h_len_after_edit(env):
+    """len / delimited dump, an in-place edit that does not go through the message's own attribute assignment
+    (append to a repeated field, set a map entry, assign inside a nested message), then len / delimited dump again"""
+    import betterproto
+
+    cat = catalogue.get(env.params["cat"])
+    mod = shapes.build_bp(cat)
+    b = shapes.Bounds(rep=1, mapn=1, strlen=1, depth=2, narrow=True)
+    val = shapes.gen_value(env, cat, "M", b=b)
+    m = sm.to_bp(mod, cat, "M", val)
+    first = m.__len__()
+    env.check("len==len(bytes)", first == len(bytes(m)))
+    s0 = betterproto.BytesIO()
+    m.dump(s0, betterproto.SIZE_DELIMITED)
+    edited = False
+    for f in cat.shapes["M"].fields:
+        if f.group:
+            continue
+        if f.label == "repeated":
+            x = getattr(m, f.name)
+            if f.kind == "message":
+                x.append(getattr(mod, f.msg)())
+            elif f.kind == "enum":
+                x.append(getattr(mod, f.enum).try_value(1))
+            else:
+                x.append(shapes.gen_scalar(env, "edit." + f.name, f.kind, b, True))
+            edited = True
+        elif f.label == "map" and f.kind != "message":
+            getattr(m, f.name)[shapes.gen_scalar(env, "edit.k." + f.name, f.key, b, True)] = shapes.gen_scalar(env, "edit.v." + f.name, f.kind, b, True) if f.kind != "enum" else getattr(mod, f.enum).try_value(1)
+            edited = True
+        elif f.kind == "message" and not f.wraps and f.label == "singular":
+            sub = getattr(m, f.name)
+            inner = cat.shapes[f.msg].fields[0]
+            if inner.kind in sw.RANGES and inner.label == "singular" and not inner.group:
+                setattr(sub, inner.name, shapes.gen_scalar(env, "edit." + f.name, inner.kind, b, True))
+                edited = True
+    if not edited:
+        env.cut("nothing to edit in place")
+    data = bytes(m)
+    env.observe("bytes", data)
+    env.check("len-after-edit==len(bytes)", m.__len__() == len(data))
+    s1 = betterproto.BytesIO()
+    m.dump(s1, betterproto.SIZE_DELIMITED)
+    env.check("delimited-after-edit==varint(len)+bytes", s1.getvalue() == sw.length_prefixed(data))
+    back = mod.M().load(betterproto.BytesIO(s1.getvalue()), betterproto.SIZE_DELIMITED)
+    env.check("delimited-after-edit-reads-back", back == m)
+
+
 LONG_LENS = [125, 126, 127, 128, 129, 16381, 16382, 16383, 16384, 16385]
 LONG_NUMBERS = [1, 15, 16, 2047, 2048]
 
@@ -162,6 +210,8 @@ def units(tier):
         u.append(("len[s1 %s singular +unknown]" % kind, h_len, {"cat": ["s1", kind, "singular"], "unknown": True}))
     for kind in ("string", "bytes", "message", "packed", "map"):
         u.append(("long-payload[%s]" % kind, h_long, {"kind": kind}))
+    for name in ("packed", "repmsg", "mapmsg", "nested", "recursive", "maps2"):
+        u.append(("len-after-in-place-edit[s2 %s]" % name, h_len_after_edit, {"cat": ["s2", name]}))
     return u
 
 
